@@ -145,7 +145,7 @@ class C18(Check):
     ASSUMPTIONS = ['strings contain no newline characters; separator does not contain the quote or escape character (domain of the property)',
                    'floats are finite and compared with == plus sign']
     ANCHORS = ['rxsci/container/csv.py', 'rxsci/io/file.py', 'rxsci/framing/line.py']
-    REQUIRED_TAGS = ['newline=CRLF'] + FILE_NAME_TAGS + ['stream', 'file', 'enc=None', 'enc=utf-8', 'multi-chunk-file', 'cols=1', 'cols=8',
+    REQUIRED_TAGS = ['newline=CRLF', 'loader-built-before-the-dump', 'target-exists-empty'] + FILE_NAME_TAGS + ['stream', 'file', 'enc=None', 'enc=utf-8', 'multi-chunk-file', 'cols=1', 'cols=8',
                      'skind=adversarial', 'skind=huge', 'skind=control', 'fkind=bits', 'sep=,', 'sep=;', 'sep=|', 'sep=tab', 'sep=multi', 'pushed-source', 'multibyte-char-across-a-64KiB-boundary', 'rows-not-retained',
                      'schema=names', 'schema=typed_namedtuple', 'schema=header']
     REQUIRED_OBSERVED = ['fields_compared', 'rows_needing_quote_merge']
@@ -248,6 +248,14 @@ class C18(Check):
             path = file_path(self._tmpdir(), 'f.csv', '.csv', case['rows']['rseed'] // 5, out)
             if os.path.exists(path):
                 os.unlink(path)
+            early = None
+            if case['rows']['rseed'] % 3 == 1:
+                # observables are lazy: the loader is BUILT before the dump runs (target absent, or present and empty), subscribed after
+                if case['rows']['rseed'] % 2:
+                    open(path, 'wb').close()
+                    out.tags.append('target-exists-empty')
+                out.tags.append('loader-built-before-the-dump')
+                early = call(csv.load_from_file, [('filename', path), ('parse_line', parser), ('skip', 0), ('encoding', case['encoding'])])
             # the documented `newline` parameter of dump_to_file: '\n' or the CRLF of files made for / on Windows (read back through
             # a text-mode file, which translates line ends)
             nl = '\r\n' if case['rows']['rseed'] % 4 == 1 else '\n'
@@ -279,7 +287,7 @@ class C18(Check):
                     raw = fb.read()
                 if any((raw[b] & 0xC0) == 0x80 for b in range(65536, len(raw), 65536)):
                     out.tags.append('multibyte-char-across-a-64KiB-boundary')
-            got = subscribe2(call(csv.load_from_file, [('filename', path), ('parse_line', parser), ('skip', 0), ('encoding', enc)]), out, 'load_from_file', same=lambda x, y: repr(x) == repr(y))
+            got = subscribe2(early if early is not None else call(csv.load_from_file, [('filename', path), ('parse_line', parser), ('skip', 0), ('encoding', enc)]), out, 'load_from_file', same=lambda x, y: repr(x) == repr(y))
 
         def mech_of(i=None, j=None):
             """mechanism classifier (only used if a finding is recorded as known instead of fixed)"""
